@@ -81,7 +81,7 @@ def sweep(ctx: Ctx):
             plan.append((rng.choice(["first", "expired", "live"]), rng.choice(flips + lens + types + others)))
     runs = []
     for i, (kind, cls) in enumerate(plan):
-        runs.append(scenario(kind, cls, seed=ctx.seed * 1000003 + i, hexform=bool(i % 2), level="dev" if i % 3 else "lan", rng=rng))
+        runs.append(scenario(kind, cls, seed=ctx.seed * 1000003 + i, hexform=[False, "both", "token", "key"][i % 4], level="dev" if i % 3 else "lan", rng=rng))
     return runs
 
 
